@@ -1,0 +1,64 @@
+//go:build verif
+
+package services
+
+// Contracts checked by /verif/govc (comment-only file; build tag verif).
+
+// ---------------------------------------------------------------------------
+// C08 — class selection
+
+// controller of the IngressClass named `name` in the cluster, "" if it does
+// not exist (cluster state, ghost)
+//@ ghost func clusterIngressClassController(name string) string
+
+// the documented decision (keys.md, command-line.md), written once
+//@ spec func selected(hasAnn bool, annOK bool, hasClass bool, classOK bool, watch bool, prec bool) bool =
+//@     hasAnn ? ((hasClass && annOK != classOK && prec) ? classOK : annOK) : (hasClass ? classOK : watch)
+
+//@ spec func validIngress(c *c, ing *networking.Ingress) bool = selected(
+//@     in("kubernetes.io/ingress.class", ing.Annotations),
+//@     ing.Annotations["kubernetes.io/ingress.class"] == c.config.IngressClass,
+//@     ing.Spec.IngressClassName != nil,
+//@     ing.Spec.IngressClassName != nil && clusterIngressClassController(*ing.Spec.IngressClassName) == c.config.ControllerName,
+//@     c.config.WatchIngressWithoutClass, c.config.IngressClassPrecedence)
+
+// trusted: c.get leaves a zero object when the class does not exist
+//@ func (*c).GetIngressClass
+//@   trusted
+//@   modifies nothing
+//@   ensures nonnil:  result.0 != nil && fresh(result.0)
+//@   ensures content: result.0.Spec.Controller == clusterIngressClassController(className)
+//@ end
+
+//@ func (*c).get
+//@   trusted
+//@   modifies obj.*
+//@ end
+
+//@ func (*c).IsValidIngressClass
+//@   props C08
+//@   requires ingressClass != nil && c.config != nil
+//@   modifies nothing
+//@   ensures def: result == (ingressClass.Spec.Controller == c.config.ControllerName)
+//@ end
+
+//@ func (*c).IsValidIngress
+//@   props C08
+//@   requires cfg: c.config != nil && c.config.ControllerName != "" && ing != nil
+//@   modifies nothing
+//@   ensures decision: result == validIngress(c, ing)
+//@ end
+
+//@ func (*c).GetIngress
+//@   props C08
+//@   requires cfg: c.config != nil && c.config.ControllerName != ""
+//@   ensures valid: result.1 == nil ==> result.0 != nil && validIngress(c, result.0)
+//@ end
+
+//@ func (*c).GetIngressList
+//@   props C08
+//@   requires cfg: c.config != nil && c.config.ControllerName != ""
+//@   ensures valid: result.1 == nil ==> forall k int :: 0 <= k && k < len(result.0) ==> result.0[k] != nil && validIngress(c, result.0[k])
+//@   loop 1 invariant rng:  0 <= i && i <= $idx(1) && $idx(1) <= len(list.Items) && len(items) == len(list.Items)
+//@   loop 1 invariant keep: forall k int :: 0 <= k && k < i ==> items[k] != nil && validIngress(c, items[k])
+//@ end
